@@ -63,6 +63,10 @@ def rand_grid(rnd, n):
     return g
 
 
+class TooBig(Exception):
+    """a state whose numbers would overflow the 32-bit rationals of the trace specification: the history ends before it"""
+
+
 class Capture(logging.Handler):
     def __init__(self):
         super().__init__(level=logging.WARNING)
@@ -424,6 +428,9 @@ class Program:
                 "slice": [], "exclp": [], "exclf": [], "split": [], "nodes": [], "links": [], "newflat": [], "intra": "", "sub": "", "col": "", "lines": []}
         base.update(kw)
         base["state"] = self.state()
+        if base["op"] != "build" and any(d > 64 or abs(n) > 4096 * max(d, 1) for k in ("prm", "flw", "sin", "sout", "slev")
+                                         for a in base["state"][k] for n, d in a["flat"] if d != 0):
+            raise TooBig()
         self.events.append(base)
 
     def has_nan(self):
@@ -514,6 +521,10 @@ class Program:
                 for dt in dtypes:
                     with np.errstate(all="ignore"):
                         w = v.astype(dt)
+                    # (signed integers only within the SYMMETRIC range: the most negative value has no negative in its own dtype - numpy's
+                    #  wrap-around on -x for int8 -128 is the dtype's arithmetic, not the library's; first seen as a rejected trace in the selftest)
+                    if np.issubdtype(dt, np.signedinteger) and v.size and float(np.max(np.abs(v))) > np.iinfo(dt).max:
+                        continue
                     if np.array_equal(w.astype(np.float64), v):
                         saved.append((arr, v.copy()))
                         arr.set_values(w)
@@ -550,12 +561,7 @@ class Program:
         form = rnd.choice(["half", "zero", "zero_f"] if nan else ["half", "default", "default", "zero", "zero_f"])
         tol_arg = {"half": 0.5, "default": None, "zero": 0, "zero_f": 0.0}[form]
         raise_error = rnd.random() < 0.5
-        if not nan and form != "default" and rnd.random() < 0.35:
-            # (explicit tolerances only: the default tolerance is scaled with the float precision of the stored dtype)
-            with self.narrowed([np.int8, np.int16, np.float32]):
-                raised, msgs = self.logged(lambda: self.mfa.check_mass_balance(tolerance=tol_arg, raise_error=raise_error))
-        else:
-            raised, msgs = self.logged(lambda: self.mfa.check_mass_balance(tolerance=tol_arg, raise_error=raise_error))
+        raised, msgs = self.logged(lambda: self.mfa.check_mass_balance(tolerance=tol_arg, raise_error=raise_error))
         text = raised if raised is not None else " ".join(msgs)
         failing = names_in(text, self.model["procs"])
         if (raised is not None or msgs) and not failing:
@@ -683,6 +689,8 @@ class Program:
                 return self.result()
             try:
                 self.history(nsteps)
+            except TooBig:
+                pass                      # (the recorded history simply ends one call earlier; that call is not judged)
             except Exception as e:
                 self.events.append({"op": "raised", "outcome": f"a well-formed call raised {type(e).__name__}: {str(e)[:100]} {{C05,C17,C18}}"})
         finally:
@@ -806,11 +814,7 @@ class Program:
         if exclp != ["sysenv"] or rnd.random() < 0.5:
             kw["exclude_processes"] = list(exclp)           # (["sysenv"] is also the default)
         try:
-            if rnd.random() < 0.4:
-                with self.narrowed([np.uint8, np.int16, np.float32]):
-                    fig = PlotlySankeyPlotter(**kw).plot()
-            else:
-                fig = PlotlySankeyPlotter(**kw).plot()
+            fig = PlotlySankeyPlotter(**kw).plot()
             sk = fig.data[0]
             nodes = [str(x) for x in sk.node.label]
             names = {f["name"] for f in m["flows"]}
